@@ -16,7 +16,8 @@ CLAIMED = {
  "C04": dict(cat="proof", tech="Coq proof + model-implementation correspondence on API programs and arbitrary paths",
    text="C04_exact (every yielded path is consumed exactly and applies its target, both code variants), C04_reference (the interpreter equals the "
         "big-step reference semantics Run for every path), C04_exact_reference; C04_no_error_refuted_pinned keeps the _analyze_forwards defect. "
-        "'Executes without error' = termination is proved under C11. Correspondence also runs complete, truncated and over-long paths.",
+        "C04_no_error: on every well-formed graph that is productive or acyclic generate_paths ends without error for every sufficiently large recursion budget "
+        "and every entry is a run of the reference semantics through its target (repaired _analyze_forwards). Correspondence also runs complete, truncated and over-long paths.",
    note=TB + "Modelled: coq/Graph.v; data values are abstracted to traces of applied nodes.", ref="5/C04"),
  "C05": dict(cat="proof", tech="Coq proof of the work-list loop invariant + correspondence",
    text="C05_cover, C05_fresh, C05_count for every well-formed graph and both code variants (invariant of the work-list loop: the visited set "
@@ -66,7 +67,6 @@ for _pid, _title, _what in [
   ("C12", "constraints fenced on both sides", "every single-constraint relaxation (type, declared required property, numeric bound) changes the verdict of some sample"),
   ("C06", "normalisation preserves acceptance", "extended validator (NOT_enum / NOT_multipleOf) agrees on the schema and on normalize(schema) over an instance grid (equality for full merge, implication for reduced merge)"),
   ("C16", "normal form and termination", "independent normal-form walker, upstream check_normalized, 10 s alarm / RecursionError on guarded recursion"),
-  ("C11", "termination on recursive inputs", "no RecursionError / 10 s alarm on well-formed productive-or-acyclic graphs (stream G, also RecursionError <-> OutOfFuel in the model correspondence), on recursive grammars whose non-terminals derive finite strings, and on guarded recursive JSON Schemas that accept a finite instance; Coq: C11_loop_rounds, C11_entries_bounded"),
   ("C07", "XML documents validate / do not validate", "xmlschema validates every document labelled valid and rejects every document labelled invalid (schemas without emptiable choice branches), numeric draws forced to both ends of their range; the Coq model of xml_schema/parse.py is not written yet, so this check is currently oracle-only"),
   ("C10", "OpenAPI request labels", "every request of generate_all is taken apart (applied parameter / body leaves), each carried raw value judged by jsonschema against its parameter / body schema, required parts checked, method and placeholder-free path checked, and compared with the label; the request graph is an instance of the C03 theorem (its well-formedness is checked by the model's wfb on the dumped node table)"),
   ("C13", "history independence", "random histories of parse / normalize / generate_paths / execute calls followed by a probe, compared with the probe run first in a fresh interpreter (same hash seed and random seed); inputs deep-compared before / after; repeated execute compared"),
@@ -78,6 +78,17 @@ for _pid, _title, _what in [
              "property's dialect (canonical graph dumps, generated entries, samples, normal forms); oracle on the implementation alone: " + _what + ". The theorems of "
              "DESIGN.md section 5 for this property are not closed yet, therefore the level is not claimed as proof.",
         note=TB + "Modelled: hand-written Gallina models of normalize.py / parse.py / convert.py; integral numeric constants; insertion-ordered sets in the correspondence run.", ref="5/" + _pid)
+
+CLAIMED["C11"] = dict(cat="proof", tech="Coq termination proof of generate_paths (well-founded measures on the distance annotations) + per-graph certificates for front-end graphs + correspondence",
+   text="C11_core_productive / C11_core_acyclic: on every well-formed graph in which every decision has a completion made of valid leaves (cycles, sharing, repeated "
+        "children, any size) and on every acyclic graph there is a recursion budget from which on generate_paths() of the model ends normally, with the same entries for "
+        "every larger budget (OutOfFuel = RecursionError); C11_paths_execute: every entry then executes to the end; C11_analysis_budget: explicit budget nodes + transition "
+        "records for the analysis; C11_checkers: the boolean checkers wfb / productiveb / acyclicb decide the hypotheses. Front ends (partial): that parse_json_schema / "
+        "parse_grammar / parse_xml_schema return in finite time with a graph that satisfies those hypotheses is not a theorem; it is established per input: the node table "
+        "of the graph the implementation built is certified by the checkers inside the extracted model (stream WG), the model's entries are compared with the "
+        "implementation's, and divergence is observed (RecursionError / alarm). Termination of normalize() itself is observed under C16.",
+   note=TB + "Modelled: coq/Graph.v (core/node.py). Not modelled: CPython's stack limit (fuel = recursion depth; the budget of the two walks is shown to exist, not bounded by a formula), "
+        "wall-clock time; front-end graph construction is tied by certificates and observation only.", ref="5/C11")
 
 NOT_YET = {}
 
